@@ -243,8 +243,10 @@ Definition adv_all (G : list decl) (in_setup : bool) (st : tstate) (l : list (li
 Fixpoint bg (main : bool) (ld : nat) (s : stmt) : bool :=
   match s with
   | SBreak => negb (Nat.eqb ld 0) && negb (main && Nat.eqb ld 1)
-  | SIf _ b => forallb (bg main ld) b
+  | SIf _ b e => forallb (bg main ld) b && forallb (bg main ld) e
   | SFor _ b => forallb (bg main (S ld)) b
+  | SWhile _ b => forallb (bg main (S ld)) b
+  | STry b h => forallb (bg main ld) b && forallb (bg main ld) h     (* handler bodies inherit main_loop / loop_depth *)
   | _ => true
   end.
 
@@ -302,9 +304,30 @@ Inductive mode := MPy | MC.      (* reference CPython execution | the emitted C+
 Definition resets_here (m : mode) (top in_setup : bool) : bool :=
   match m with MPy => false | MC => negb (top && in_setup) end.
 
-(* result: store, trace, "a break is propagating" *)
+(* a nested [while x:] is run for at most [while_fuel] iterations; a run that needs more is outside the model
+   (sticky flag, as for a read of an unbound name) *)
+Definition while_fuel : nat := 64.
+
+Definition out_of_fuel (vs : vstate) : vstate := mkV (v_vars vs) true.
+
+(* [T x = <default>;] in front of a block for the names promoted out of it (not at setup depth 0: globals) *)
+Definition pre_reset (m : mode) (top in_setup : bool) (declared : list name) (nn : list name) (vs : vstate) : vstate :=
+  if resets_here m top in_setup then reset (fresh declared nn) vs else vs.
+
+(* result: store, trace, "a break is propagating".  An [except] handler never runs: nothing in this fragment raises
+   (in CPython as in C++); it matters for the break guard, for promotion and for the IR only. *)
 Fixpoint run_stmt (m : mode) (tab : list decl) (top in_setup : bool) (declared : list name)
          (s : stmt) (vs : vstate) {struct s} : vstate * list ev * bool :=
+  let blk := fix go (d : list name) (l : list stmt) (v : vstate) : vstate * list ev * bool :=
+               match l with
+               | [] => (v, [], false)
+               | s1 :: r =>
+                   match run_stmt m tab false in_setup d s1 v with
+                   | (v1, t1, true) => (v1, t1, true)
+                   | (v1, t1, false) =>
+                       match go (d ++ assigned_stmt s1) r v1 with (v2, t2, b2) => (v2, t1 ++ t2, b2) end
+                   end
+               end in
   match s with
   | SMark id dev => (vs, uses tab dev ++ [EMark id], false)
   | SDecl d => (vs, inplace_cfg top in_setup d, false)
@@ -312,42 +335,32 @@ Fixpoint run_stmt (m : mode) (tab : list decl) (top in_setup : bool) (declared :
   | SShow dev x => let (v, vs1) := vread x vs in (vs1, uses tab (Some dev) ++ [EVal x v], false)
   | SAnim l => (vs, uses tab (Some l), false)
   | SBreak => (vs, [], true)
-  | SIf x body =>
-      let vs0 := if resets_here m top in_setup
-                 then reset (fresh declared (flat_map assigned_stmt body)) vs else vs in
-      let (c, vs1) := vread x vs0 in
-      if c =? 0 then (vs1, [], false)
-      else (fix go (d : list name) (l : list stmt) (v : vstate) : vstate * list ev * bool :=
-              match l with
-              | [] => (v, [], false)
-              | s1 :: r =>
-                  match run_stmt m tab false in_setup d s1 v with
-                  | (v1, t1, true) => (v1, t1, true)
-                  | (v1, t1, false) =>
-                      match go (d ++ assigned_stmt s1) r v1 with (v2, t2, b2) => (v2, t1 ++ t2, b2) end
-                  end
-              end) declared body vs1
+  | SIf x body els =>
+      let (c, vs1) := vread x (pre_reset m top in_setup declared (assigned_stmt s) vs) in
+      if c =? 0 then blk declared els vs1 else blk declared body vs1
   | SFor cnt body =>
-      let vs0 := if resets_here m top in_setup
-                 then reset (fresh declared (flat_map assigned_stmt body)) vs else vs in
       (fix iter (k : nat) (v : vstate) : vstate * list ev * bool :=
          match k with
          | O => (v, [], false)
          | S k' =>
-             match (fix go (d : list name) (l : list stmt) (v : vstate) : vstate * list ev * bool :=
-                      match l with
-                      | [] => (v, [], false)
-                      | s1 :: r =>
-                          match run_stmt m tab false in_setup d s1 v with
-                          | (v1, t1, true) => (v1, t1, true)
-                          | (v1, t1, false) =>
-                              match go (d ++ assigned_stmt s1) r v1 with (v2, t2, b2) => (v2, t1 ++ t2, b2) end
-                          end
-                      end) declared body v with
+             match blk declared body v with
              | (v1, t1, true) => (v1, t1, false)            (* break leaves this loop only *)
              | (v1, t1, false) => match iter k' v1 with (v2, t2, b2) => (v2, t1 ++ t2, b2) end
              end
-         end) cnt vs0
+         end) cnt (pre_reset m top in_setup declared (assigned_stmt s) vs)
+  | SWhile x body =>
+      (fix iter (k : nat) (v : vstate) : vstate * list ev * bool :=
+         match k with
+         | O => (out_of_fuel v, [], false)
+         | S k' =>
+             let (c, v0) := vread x v in
+             if c =? 0 then (v0, [], false)
+             else match blk declared body v0 with
+                  | (v1, t1, true) => (v1, t1, false)       (* break leaves this loop only *)
+                  | (v1, t1, false) => match iter k' v1 with (v2, t2, b2) => (v2, t1 ++ t2, b2) end
+                  end
+         end) while_fuel (pre_reset m top in_setup declared (assigned_stmt s) vs)
+  | STry body _ => blk declared body (pre_reset m top in_setup declared (assigned_stmt s) vs)
   end.
 
 (* a block of statements parsed one after the other in the same ctx *)
@@ -721,22 +734,20 @@ Definition tick_list (p : program) : list name :=
 (* ------------------------------------------------------------------ guards *)
 (* (1) variable lifetime: no name is first assigned inside [while True:] and no block
        below setup depth 0 introduces a name *)
+Definition no_fresh (top in_setup : bool) (declared : list name) (nn : list name) : bool :=
+  (top && in_setup) || match fresh declared nn with [] => true | _ => false end.
+
 Fixpoint no_intro (top in_setup : bool) (declared : list name) (s : stmt) : bool :=
+  let blk := fix go (d : list name) (l : list stmt) : bool :=
+               match l with
+               | [] => true
+               | s1 :: r => no_intro false in_setup d s1 && go (d ++ assigned_stmt s1) r
+               end in
   match s with
-  | SIf _ body =>
-      ((top && in_setup) || match fresh declared (flat_map assigned_stmt body) with [] => true | _ => false end) &&
-      (fix go (d : list name) (l : list stmt) : bool :=
-         match l with
-         | [] => true
-         | s1 :: r => no_intro false in_setup d s1 && go (d ++ assigned_stmt s1) r
-         end) declared body
-  | SFor _ body =>
-      ((top && in_setup) || match fresh declared (flat_map assigned_stmt body) with [] => true | _ => false end) &&
-      (fix go (d : list name) (l : list stmt) : bool :=
-         match l with
-         | [] => true
-         | s1 :: r => no_intro false in_setup d s1 && go (d ++ assigned_stmt s1) r
-         end) declared body
+  | SIf _ body els => no_fresh top in_setup declared (assigned_stmt s) && blk declared body && blk declared els
+  | SFor _ body => no_fresh top in_setup declared (assigned_stmt s) && blk declared body
+  | SWhile _ body => no_fresh top in_setup declared (assigned_stmt s) && blk declared body
+  | STry body h => no_fresh top in_setup declared (assigned_stmt s) && blk declared body && blk declared h
   | _ => true
   end.
 
@@ -758,8 +769,10 @@ Fixpoint reads_stmt (s : stmt) : list name :=
   match s with
   | SSet _ e => reads_rhs e
   | SShow _ x => [x]
-  | SIf x b => x :: flat_map reads_stmt b
+  | SIf x b e => x :: flat_map reads_stmt b ++ flat_map reads_stmt e
   | SFor _ b => flat_map reads_stmt b
+  | SWhile x b => x :: flat_map reads_stmt b
+  | STry b h => flat_map reads_stmt b ++ flat_map reads_stmt h
   | _ => []
   end.
 
@@ -794,7 +807,8 @@ Fixpoint main_last (its : list item) : bool :=
 Definition one_main_last (its : list item) : bool := main_last its.
 
 (* (3) device placement *)
-Definition flat_stmt (s : stmt) : bool := match s with SIf _ _ | SFor _ _ => false | _ => true end.
+Definition flat_stmt (s : stmt) : bool :=
+  match s with SIf _ _ _ | SFor _ _ | SWhile _ _ | STry _ _ => false | _ => true end.
 
 Fixpoint nodup_names (l : list name) : bool :=
   match l with [] => true | x :: r => negb (mem_name x r) && nodup_names r end.
@@ -809,12 +823,14 @@ Definition stmt_dev (s : stmt) : list name :=
 
 Fixpoint devs_stmt (s : stmt) : list name :=
   match s with
-  | SIf _ b => flat_map devs_stmt b
+  | SIf _ b e => flat_map devs_stmt b ++ flat_map devs_stmt e
   | SFor _ b => flat_map devs_stmt b
+  | SWhile _ b => flat_map devs_stmt b
+  | STry b h => flat_map devs_stmt b ++ flat_map devs_stmt h
   | _ => stmt_dev s
   end.
 
-(* devices are declared by top-level statements only (not inside if / for blocks) *)
+(* devices are declared by top-level statements only (not inside if / for / while / try blocks) *)
 Definition nested_decl_free (s : stmt) : bool :=
   match s with
   | SDecl _ => true
